@@ -49,7 +49,7 @@ type entry struct {
 }
 
 var kinds = []string{"ok1.templ", "ok2.templ", "bad.templ", "badgo.templ", "orphan_templ.go", "ok1_templ.go(up-to-date)", "ok1_templ.go(stale)", "other.go", "notes.txt"}
-var dirs = []string{"", "a", "a/b", "vendor", "node_modules", ".hid", "_priv"}
+var dirs = []string{"", "a", "a/b", "vendor", "node_modules", ".hid", "_priv", "vendors", "a/node_modules_x"}
 
 func skipped(dir string) bool {
 	for _, c := range strings.Split(dir, "/") {
@@ -489,5 +489,5 @@ func part1(run *vlib.Run, trees [][]entry, cfgs []cfg) {
 	run.Sample(map[string]any{"tree": "./ok1.templ + ./ok1_templ.go(stale) + ./bad.templ", "expect": "ok1_templ.go regenerated, command fails, bad.templ untouched"})
 	run.Assumption("-lazy is modification-time based by documented design: lazy configurations only contain generated files that are up to date and newer, or stale and older")
 	run.Assumption("the fsnotify watch loop (watch mode) is not exercised; include-timestamp is outside the quantifier's flag set")
-	run.Finish(int(runs.Load())+sched.Executions, int(nontrivial.Load())+sched.Executions, "every tree of ≤ 2 entries over 9 entry kinds × 7 directories (skipped and non-skipped), triples around generated-file interactions (thorough: every triple over 4 directories) × 8 flag sets × worker counts {1,2,4}, each run twice; plus every schedule with ≤ B deviations of concurrent event handling; non-trivial = run that must create, delete or fail")
+	run.Finish(int(runs.Load())+sched.Executions, int(nontrivial.Load())+sched.Executions, "every tree of ≤ 2 entries over 9 entry kinds × 9 directories (skipped, non-skipped, and look-alikes such as vendors/ and node_modules_x/), triples around generated-file interactions (thorough: every triple over 4 directories) × 8 flag sets × worker counts {1,2,4}, each run twice; plus every schedule with ≤ B deviations of concurrent event handling; non-trivial = run that must create, delete or fail")
 }
